@@ -272,6 +272,11 @@ class Case:
                 for p in self.points[a]:
                     for q in self.points[b]:
                         combos.append(([(a, p[0], p[1], b), (b, q[0], q[1], c)], order))
+                if n >= 3:
+                    # a is parked, b runs to its end, c starts and is pre-empted in turn, a resumes
+                    for p in self.points[a]:
+                        for q in self.points[c]:
+                            combos.append(([(a, p[0], p[1], b), (c, q[0], q[1], a)], order))
             if len(combos) > cap:
                 combos = rng.sample(combos, cap)
             out = combos
@@ -356,6 +361,30 @@ def explore(ctx, w, names, variant, npre, cap, seen_fail):
 
 def variants_for(names):
     return CACHE_VARIANTS if any(CALL[n][1] == 'cache' for n in names) else LAZY_VARIANTS
+
+
+GROUP_OF_MODULE = {'utils': ['cache'], 'athlon_score': ['athlon'], 'hungarian_score': ['hungarian'], 'sportshall_score': ['sportshall'],
+                   'agegrader': ['wma', 'wma15'], 'athlonsagegrader': ['aag'], 'wma': ['wma', 'wma15', 'aag'], '__init__': ['wma', 'wma15', 'aag']}
+
+
+def deep_plan(ctx, breaks):
+    """the search for a failing schedule when the access discipline no longer checks: every core pair and triple of the
+    groups whose functions break it, two forced pre-emptions, a large cap"""
+    groups = set()
+    for b in breaks:
+        fn = b.split(':')[0]
+        hit = [g for m, gs in GROUP_OF_MODULE.items() if m in fn.split('.') for g in gs]
+        groups.update(hit or [c[1] for c in CALLS])
+    items = []
+    for t in TRIPLES:
+        if CALL[t[0]][1] in groups:
+            items.append((t[:3], t[3], 2, 4000))
+    for pair in CORE_PAIRS:
+        if CALL[pair[0]][1] in groups:
+            for v in variants_for(pair):
+                if not (pair[0] == pair[1] and v == 'warm-first'):
+                    items.append((pair, v, 2, 1500))
+    return items
 
 
 def plan(ctx):
@@ -470,8 +499,13 @@ def run(ctx):
         ctx.notes.append('cooperative locks installed for: %s' % ', '.join('%s.%s' % l for l in w.locks))
     seen_fail = set()
     total = 0
+    items = plan(ctx)
+    if side is not None and not side['ok'] and ctx.quick():
+        deep = deep_plan(ctx, side['breaks'])
+        ctx.notes.append('access discipline broken: searching %d more cases with two forced pre-emptions for a failing schedule' % len(deep))
+        items = items + deep
     with contextlib.redirect_stdout(io.StringIO()):
-        for names, variant, npre, cap in plan(ctx):
+        for names, variant, npre, cap in items:
             try:
                 n, nbad = explore(ctx, w, names, variant, npre, cap, seen_fail)
             except sched.Hang as e:
